@@ -634,6 +634,12 @@ def gen_keepalive_case(r, idx):
                 g.sn(disconnect(max(1, ka - 1)), gap=1)
                 g.sn(pingreq(cid), gap=max(1, (ka - 1) * 10 - 2))
                 g.sn(connect(cid, ka, False, True), gap=1)
+            elif v < 0.9:
+                # a short sleep announced after the wake-up, then the client vanishes: the pinger of the earlier,
+                # longer cycle must not go on
+                g.sn(disconnect(1), gap=1)
+                g.raw("end", 10 + 3 * kaq + 20 + d * 10)
+                return "case g%d-keepalive %s\n" % (idx, hdrkv) + "\n".join(g.ev) + "\n"
             else:
                 g.raw("end", 3 * kaq + 20)
                 return "case g%d-keepalive %s\n" % (idx, hdrkv) + "\n".join(g.ev) + "\n"
